@@ -150,6 +150,12 @@ func (pc *PubkeyCache) AddValidator(index ValidatorIndex, pub BLSPubkey) (*Pubke
 		}
 	}
 	pc.rwLock.Lock()
+	if expected := pc.trustedParentCount + ValidatorIndex(len(pc.idx2pub)); index < expected {
+		// The lookups above ran before the write lock was taken, and the cache grew past the index since:
+		// another caller appended concurrently. Decide again against the current content.
+		pc.rwLock.Unlock()
+		return pc.AddValidator(index, pub)
+	}
 	defer pc.rwLock.Unlock()
 	if expected := pc.trustedParentCount + ValidatorIndex(len(pc.idx2pub)); index != expected {
 		// index is unknown, but too far ahead of cache; in between indices are missing.
